@@ -93,6 +93,11 @@ impl Model {
                 if signer != Some(caller) || !self.may_manage(caller, role) {
                     return false;
                 }
+                // MAX_ROLES = 256 roles with at least one member; a role that exists already can always grow
+                let existing: BTreeSet<usize> = self.members.iter().map(|x| x.1).collect();
+                if !existing.contains(&role) && existing.len() >= 256 {
+                    return false;
+                }
                 self.members.insert((account, role));
                 true
             }
@@ -157,6 +162,9 @@ impl Check for Access {
     fn components(&self) -> serde_json::Value {
         serde_json::json!({"real": ["examples/nft-access-control (from source; 35 % of the runs)", "stellar_access::access_control::* (trait defaults)", "stellar_macros::{only_admin, only_role, has_role, only_any_role, has_any_role}"], "stub": ["Wallet"]})
     }
+    fn probes(&self, _prop: &str) -> std::vec::Vec<&'static str> {
+        vec!["probe.max_roles_reached", "fault.auth_missing", "fault.auth_foreign"]
+    }
     fn clock_step(&self, n: u32) -> Option<Step> {
         Some(Step::Wait { n })
     }
@@ -173,6 +181,21 @@ impl Check for Access {
         let mut m = Model { admin: Some(0), ..Default::default() };
         let fault = if rng.chance(25) { 0 } else { 5 + rng.below(20) };
         let mut steps = vec![];
+        if rng.below(if tier == Tier::Quick { 60 } else { 40 }) == 0 {
+            // limit scenario: MAX_ROLES (256) roles in existence, one more refused, a member added to an existing role accepted,
+            // one role emptied, a new one admitted
+            for j in 0..256usize {
+                steps.push(Step::Grant { account: 1, role: 10 + j, caller: 0, signer: Some(0) });
+            }
+            steps.push(Step::Grant { account: 1, role: 300, caller: 0, signer: Some(0) });
+            steps.push(Step::Grant { account: 2, role: 10 + rng.below(256) as usize, caller: 0, signer: Some(0) });
+            steps.push(Step::Revoke { account: 1, role: 10 + rng.below(256) as usize, caller: 0, signer: Some(0) });
+            steps.push(Step::Grant { account: 1, role: 300, caller: 0, signer: Some(0) });
+            steps.push(Step::Grant { account: 1, role: 301, caller: 0, signer: Some(0) });
+            for st in &steps {
+                m.apply_for(st, cfg.example);
+            }
+        }
         for _ in 0..nsteps {
             let any = |rng: &mut Rng| rng.below(n) as usize;
             let role = rng.below(4) as usize;
@@ -233,7 +256,7 @@ impl Check for Access {
             e.register(Acl, (a(0),))
         };
         let c = AclClient::new(e, &id); // the AccessControl entry points and getters have the same names in both contracts
-        let role = |r: usize| Symbol::new(e, ROLES[r]);
+        let role = |r: usize| if r < 4 { Symbol::new(e, ROLES[r]) } else { Symbol::new(e, &format!("r{r}")) };
         let mut m = Model { admin: Some(0), ..Default::default() };
         let call = |f: &str, args: Vec<soroban_sdk::Val>| -> bool { e.try_invoke_contract::<soroban_sdk::Val, soroban_sdk::Error>(&id, &Symbol::new(e, f), args).map(|r| r.is_ok()).unwrap_or(false) };
         for (i, s) in steps.iter().enumerate() {
@@ -345,8 +368,14 @@ impl Check for Access {
             if c.get_admin() != m.admin.map(|x| a(x)) {
                 return Err(violation("admin.model_eq", kind, i, "get_admin".into()));
             }
-            let mut existing: BTreeSet<usize> = BTreeSet::new();
-            for r in 0..4 {
+            let mut existing: BTreeSet<usize> = m.members.iter().map(|x| x.1).filter(|r| *r >= 4).collect();
+            if existing.len() >= 252 { st.hit("probe.max_roles_reached"); }
+            let mut inspect: std::vec::Vec<usize> = (0..4).collect();
+            if let Step::Grant { role: r, .. } | Step::Revoke { role: r, .. } | Step::Renounce { role: r, .. } = s { if *r >= 4 { inspect.push(*r); } }
+            if !existing.is_empty() { inspect.extend([10, 265, 300, 301]); }
+            inspect.sort();
+            inspect.dedup();
+            for r in inspect {
                 let want: BTreeSet<usize> = m.members.iter().filter(|x| x.1 == r).map(|x| x.0).collect();
                 let cnt = c.get_role_member_count(&role(r));
                 if cnt as usize != want.len() {
@@ -380,9 +409,11 @@ impl Check for Access {
             }
             let mut ex: BTreeSet<usize> = BTreeSet::new();
             for sy in c.get_existing_roles().iter() {
-                match (0..4).find(|r| role(*r) == sy) {
+                match (0..4).chain(existing.iter().cloned()).find(|r| role(*r) == sy) {
                     Some(r) => {
-                        ex.insert(r);
+                        if !ex.insert(r) {
+                            return Err(violation("roles.existing_eq_nonempty", kind, i, format!("get_existing_roles lists role {r} twice")));
+                        }
                     }
                     None => return Err(violation("roles.existing_eq_nonempty", kind, i, "get_existing_roles lists a role nobody was ever granted".into())),
                 }
@@ -390,7 +421,7 @@ impl Check for Access {
             if ex != existing || c.get_existing_roles().len() as usize != existing.len() {
                 return Err(violation("roles.existing_eq_nonempty", kind, i, format!("existing roles {ex:?}, model {existing:?}")));
             }
-            st.state(&(cfg.example, m.members.clone(), m.role_admin.clone(), m.admin));
+            st.state(&(cfg.example, m.members.iter().filter(|x| x.1 < 4).cloned().collect::<std::vec::Vec<_>>(), m.members.len().min(300) / 64, m.role_admin.clone(), m.admin));
         }
         Ok(())
     }
